@@ -36,6 +36,20 @@ func init() {
 		}
 		e.Flush()
 		return noCloseSub{e.SubStore()}, func() {}, nil
+	}, Reload: func(clients []string) (subscription.Store, error) {
+		e, err := sharedEnv()
+		if err != nil {
+			return nil, err
+		}
+		st := e.SubStore()
+		if err := st.Init(clients); err != nil {
+			return nil, err
+		}
+		return noCloseSub{st}, nil
+	}, FailNext: func() {
+		if e, err := sharedEnv(); err == nil {
+			e.FailNext()
+		}
 	}})
 	c10.ExtraFactories = append(c10.ExtraFactories, c10.Factory{Name: "redis", New: func(capacity int, ie time.Duration, id string, def queue.Notifier) (queue.Store, func(), error) {
 		e, err := sharedEnv()
